@@ -12,6 +12,10 @@ import os
 import torch
 from torch import nn
 
+# freshly loaded TorchScript modules otherwise spend ~50 ms per engine in the profiling graph executor; the stubs are tiny
+# and every check loads many of them.  This changes no numerical result (same kernels, no fusion).
+torch._C._set_graph_executor_optimize(False)
+
 VERIF = os.path.dirname(os.path.dirname(os.path.abspath(__file__)))
 STUB_DIR = os.path.join(VERIF, '.cache', 'stubs')
 
